@@ -2,6 +2,7 @@
 C09 — every command runs in the documented working directory.
 -/
 import Just.Model.Workdir
+import Just.Lemmas.Path
 namespace Just.Props.C09
 open Just.Workdir
 
@@ -99,5 +100,28 @@ example :
     recipeCwd ⟨["inv"], ⟨["proj"], ["proj"]⟩, [.module ["proj", "mods"], .import ["proj", "mods", "inner"]],
       some (.rel ["wd"])⟩ ⟨false, some (.rel ["ad"])⟩ = ["proj", "mods", "wd", "ad"] := by
   decide
+
+/-! ### `--justfile` / `--working-directory` given as relative paths (`Search::clean`, model `Just.Path`) -/
+open Just.Path in
+/-- **the directory just works with holds no `..`**: however the path is spelled, what
+`Search::clean` makes of it has no parent-directory component left, and a `.` or a `name/..`
+detour in the spelling changes nothing -/
+theorem search_clean_normalises (cs d t : List Comp) (x : List Char) :
+    Comp.parent ∉ searchCleanComps cs ∧
+    searchCleanComps (d ++ Comp.normal x :: Comp.parent :: t) = searchCleanComps (d ++ t) := by
+  constructor
+  · unfold searchCleanComps
+    intro h
+    exact searchClean_foldl_no_parent cs [] (by simp) (List.mem_reverse.mp h)
+  · unfold searchCleanComps
+    simp [List.foldl_append, searchCleanStep]
+
+open Just.Path in
+/-- non-vacuity, on texts: three spellings from `/w/proj/x/y` name `/w/proj/justfile`; above the root
+a `..` is dropped -/
+example : searchClean "/w/proj/x/y".toList "./../../justfile".toList = "/w/proj/justfile".toList ∧
+    searchClean "/w/proj/x/y".toList "../.././justfile".toList = "/w/proj/justfile".toList ∧
+    searchClean "/w/proj/x/y".toList "detour/../../../justfile".toList = "/w/proj/justfile".toList ∧
+    searchClean "/w".toList "../../../j".toList = "/j".toList := by decide
 
 end Just.Props.C09
